@@ -8,7 +8,7 @@ use boomphf::hashmap::BoomHashMap2;
 use debruijn::compression::compress_kmers_with_hash;
 use debruijn::filter::{remove_censored_exts, remove_censored_exts_sharded};
 use debruijn::graph::{BaseGraph, DebruijnGraph};
-use debruijn::{Dir, Exts, Kmer};
+use debruijn::{Dir, Exts, Kmer, Vmer};
 use std::collections::HashMap;
 
 pub fn dir_s(d: Dir) -> &'static str {
@@ -122,9 +122,37 @@ pub fn nodes_with_ids<K: Kmer>(g: &DebruijnGraph<K, u32>) -> String {
     (0..g.len()).map(|i| format!("{}:{:02x}:{}", seq_digits(&g.base.sequences.get(i)), g.base.exts[i].val, i)).collect::<Vec<_>>().join(",")
 }
 
+/// node text of the graph with up to three dangling extension bits added (the extended terminal k-mer is no node end,
+/// so no resolvable edge appears or disappears) and, every other time, one node removed (links to it dangle)
+pub fn dangle_nodes<K: Kmer + Send + Sync>(nodes: &str, stranded: bool, picks: &[usize], may_remove: bool) -> String {
+    if nodes == "-" { return nodes.to_string(); }
+    let mut items: Vec<(String, u8, String)> = nodes.split(',').map(|t| { let f: Vec<&str> = t.split(':').collect(); (f[0].to_string(), u8::from_str_radix(f[1], 16).unwrap(), f[2].to_string()) }).collect();
+    if may_remove && picks[0] % 2 == 0 && items.len() > 1 { items.remove(picks[1] % items.len()); }
+    let txt = |it: &Vec<(String, u8, String)>| it.iter().map(|x| format!("{}:{:02x}:{}", x.0, x.1, x.2)).collect::<Vec<_>>().join(",");
+    let g: DebruijnGraph<K, u32> = build_graph(stranded, &txt(&items));
+    for j in 0..3 {
+        let i = picks[2 + j] % items.len();
+        let dir = if (picks[2 + j] >> 8) % 2 == 0 { Dir::Left } else { Dir::Right };
+        let b = ((picks[2 + j] >> 10) % 4) as u8;
+        let node = g.get_node(i);
+        if node.exts().has_ext(dir, b) { continue; }
+        let term: K = node.sequence().term_kmer(dir);
+        if g.find_link(term.extend(b, dir), dir).is_none() {
+            items[i].1 = Exts::new(items[i].1).set(dir, b).val;
+        }
+    }
+    txt(&items)
+}
+
 fn gen_graph<K: Kmer + Send + Sync>(rng: &mut Rng, k: usize, tier: &str, stranded: bool) -> String {
     let reads = gen_reads(rng, k, if tier == "thorough" { 20 } else { 6 }, if tier == "thorough" { 300 } else { 50 });
-    let (_, g) = pipeline::<K>(&reads, stranded, *rng.pick(&[1usize, 1, 2]));
+    let (_, g0) = pipeline::<K>(&reads, stranded, *rng.pick(&[1usize, 1, 2]));
+    // one graph in six gets dangling extension bits (recorded extensions whose k-mer is no node end): edges, pruning, walks
+    // and `max_path` must cope; `max_path_beam` may panic there (`states[0]` on an emptied beam), which is not judged
+    let g: DebruijnGraph<K, u32> = if g0.len() > 0 && rng.chance(1, 6) {
+        let picks: Vec<usize> = (0..6).map(|_| rng.below(1 << 20)).collect();
+        build_graph(stranded, &dangle_nodes::<K>(&nodes_with_ids(&g0), stranded, &picks, false))
+    } else { g0 };
     let n = g.len();
     // probes: terminal k-mers extended by a base, internal k-mers, random k-mers
     let mut probes: Vec<String> = Vec::new();
